@@ -9,6 +9,7 @@ import (
 	"github.com/bytedance/sonic/internal/caching"
 	"github.com/bytedance/sonic/internal/decoder/jitdec"
 	"github.com/bytedance/sonic/internal/decoder/optdec"
+	"github.com/bytedance/sonic/internal/encoder/alg"
 	"github.com/bytedance/sonic/internal/encoder/vars"
 	"github.com/bytedance/sonic/internal/encoder/x86"
 	"github.com/bytedance/sonic/internal/resolver"
@@ -77,3 +78,6 @@ func EncoderOpName(op int) string               { return x86.VerifOpName(op) }
 func PrefilledCache(slots int, keys []*GoType, vals []interface{}) *ProgramCache {
 	return caching.VerifPrefilled(slots, keys, vals)
 }
+
+// SortMapKeys runs the encoder's map-key sorter on keys in the given order.
+func SortMapKeys(keys []string) ([]string, bool) { return alg.VerifSortKeys(keys) }
